@@ -731,6 +731,8 @@ class Interp:
         if isinstance(a, str) and isinstance(b, str):
             return {ast.Lt: a < b, ast.LtE: a <= b, ast.Gt: a > b, ast.GtE: a >= b}[type(op)]
         if a is None or b is None:
+            if self.in_spec or self.nofork:
+                return self.fresh_scalar("bool", "undef")  # total reading inside specifications
             raise PyRaise("TypeError", node)
         if isinstance(a, SObj) and isinstance(b, SObj) and a.cls is not None and a.cls.find_method("__lt__")[1] is None:
             raise PyRaise("TypeError", node, msg="'<' not supported between instances")
